@@ -65,6 +65,9 @@ func vhScope(in *kit.Info) string {
 
 func vhTerminal(s workflow.Status) bool { return s == workflow.Completed || s == workflow.Failed }
 
+// vhRetries is the retry budget given to every action of the next world (0 unless a harness picks another value).
+var vhRetries = 0
+
 // vhNewWorld builds a plan of a shape chosen within cfg, as Submit leaves it (ids, pristine states,
 // Concurrency >= 1), with symbolic Concurrency and ToleratedFailures on every block.
 func vhNewWorld(cfg shape.Cfg, mode int, orc int) *vhWorld {
@@ -81,6 +84,7 @@ func vhNewWorld(cfg shape.Cfg, mode int, orc int) *vhWorld {
 	for it := range walk.Plan(p) {
 		if a, ok := it.Value.(*workflow.Action); ok {
 			a.Timeout = 30 * time.Second
+			a.Retries = vhRetries
 		}
 		if c, ok := it.Value.(*workflow.Checks); ok {
 			c.Delay = time.Second
@@ -463,7 +467,10 @@ func (w *vhWorld) checkAfterReturn() {
 }
 
 // checkC03 evaluates the threshold clauses on the finished run.
-func (w *vhWorld) checkC03() {
+func (w *vhWorld) checkC03() { w.checkC03x(false) }
+
+// checkC03x: recovered=true skips the clauses that count what *this* process started.
+func (w *vhWorld) checkC03x(recovered bool) {
 	p := w.plan
 	laterMustNotRun := false
 	for _, b := range p.Blocks {
@@ -482,6 +489,10 @@ func (w *vhWorld) checkC03() {
 		if laterMustNotRun {
 			api.Assert(started == 0, "C03: after a Failed block no later block invokes anything")
 			continue
+		}
+		if recovered && w.vault.Img[b.ID].Status == workflow.Failed {
+			// the block may have been Failed before the crash by a check of the first process: only the count clause below applies
+			_ = started
 		}
 		bypassed := b.BypassChecks != nil && w.img(b.BypassChecks.ID).Status == workflow.Completed
 		checkFailed := false
@@ -505,7 +516,7 @@ func (w *vhWorld) checkC03() {
 			} else {
 				api.Assert(bim.Status == workflow.Failed, "C03: a block with a failed check is Failed")
 			}
-			if b.Concurrency == 1 && tol >= 0 && !checkFailed {
+			if b.Concurrency == 1 && tol >= 0 && !checkFailed && !recovered {
 				// execution stops exactly at the failure that exceeds the tolerance
 				nf := 0
 				for si, s := range b.Sequences {
